@@ -137,15 +137,42 @@ def rich_value(rng):
     return ops_
 
 
+def restart_overlay_remove(rng):
+    """Generic directed workload for stop/restart pairs: a setting is applied underneath (topmost=False)
+    from a seed-drawn index, which stops and restarts what is active there; more settings from a small
+    conflict-rich pool are laid over that index; then the setting that caused the restart is removed
+    again (completely or over a range touching the index)."""
+    n = rng.choice([3, 4, 5, 6])
+    text = ''.join(rng.choice('ab') for _ in range(n))
+    pool = [rng.choice(CONFLICT_RICH) for _ in range(3)]
+    under = rng.choice(['n:bold', 'n:italic', 'n:underline', 'n:bg_red', 'n:crossed_out'] + pool)
+    ops_ = [_new(text, [rng.choice(pool)], 0)]
+    if rng.random() < 0.4:
+        ops_.append(_apply(0, [rng.choice(pool)], 0, None, top=True))
+    p = rng.randrange(1, n)
+    e = None if rng.random() < 0.4 else rng.randint(p + 1, n)
+    ops_.append(_apply(0, [under], p, e, top=False))
+    for _ in range(rng.choice([1, 2, 2, 3])):
+        a = rng.randrange(0, p + 1)
+        b = None if rng.random() < 0.5 else rng.randint(p + 1, n) if p + 1 <= n else None
+        ops_.append(_apply(0, [rng.choice(pool)], a, b, top=rng.random() < 0.85))
+    ra, rb = (0, None) if rng.random() < 0.5 else (rng.randrange(0, p + 1), rng.randint(p, n))
+    ops_.append({'op': 'remove', 'r': 0, 'd': 0, 'ip': rng.random() < 0.7, 'st': [under], 'a': ra, 'b': rb})
+    return ops_
+
+
 def pick(rng, prop):
     x = rng.random()
     name = rng.choice(NAMES)
     gen = stacked_then_mirror_concat(rng)
     rich = rich_value(rng)
-    if x < 0.24:
+    ror = restart_overlay_remove(rng)
+    if x < 0.22:
         return copy.deepcopy(SCENARIOS[name])
-    if x < 0.32:
+    if x < 0.30:
         return gen
-    if x < 0.46:
+    if x < 0.42:
         return rich
+    if x < 0.52:
+        return ror
     return None
